@@ -11,7 +11,10 @@ Open Scope Z_scope.
 
 Record bk := mkBk { kaddr : Z; kname : Z; kw : Z; kav : bool; kcn : Z; kfn : Z; krel : Z }.
 Record sub := mkSub { sname : Z; sweight : Z; sbks : list bk }.
-Record clu := mkClu { cname : Z; csubs : list sub }.
+(* cmeta = (bal.totalWeight, bal.single, bal.avail): the selection short-cuts BalanceGslb.Reload recomputes *)
+Definition meta := (Z * bool * Z)%type.
+Definition meta0 : meta := (0, false, 0).
+Record clu := mkClu { cname : Z; csubs : list sub; cmeta : meta }.
 Record tbl := mkT { clus : list clu; orphans : list bk }.
 Definition tbl0 : tbl := mkT [] [].
 
@@ -114,14 +117,25 @@ Fixpoint ins_sub (s : sub) (l : list sub) : list sub :=
 Definition sort_subs (l : list sub) : list sub := fold_right ins_sub [] l.
 Definition pos_total (l : list sub) : Z :=
   fold_right (fun s acc => if sweight s >? 0 then sweight s + acc else acc) 0 l.
-(* result: sub list afterwards, released backends that left the list, error? *)
-Definition reload_gslb (g : gconf) (l : list sub) : option (list sub * list bk * bool) :=
+(* index of the last sub-cluster with weight > 0 (lastAvailIndex), 0 when there is none *)
+Fixpoint last_pos (l : list sub) (i acc : Z) : Z :=
+  match l with
+  | [] => acc
+  | s :: r => last_pos r (i + 1) (if sweight s >? 0 then i else acc)
+  end.
+Definition count_pos (l : list sub) : Z := Z.of_nat (length (filter (fun s => sweight s >? 0) l)).
+(* totalWeight / single / avail as computed on the SORTED new list; bal.avail is only written when single *)
+Definition new_meta (nl : list sub) (m : meta) : meta :=
+  let single := count_pos nl =? 1 in
+  (pos_total nl, single, if single then last_pos nl 0 0 else snd m).
+(* result: sub list afterwards, released backends that left the list, error?, selection short-cuts *)
+Definition reload_gslb (g : gconf) (l : list sub) (m : meta) : option (list sub * list bk * bool * meta) :=
   let '(kept, mutated, gone) := reload_old g l in
   let fresh := flat_map (fun e => if memZ (fst e) (map sname l) then [] else [mkSub (fst e) (snd e) []]) g in
   let nl := sort_subs (kept ++ fresh) in
-  if pos_total nl =? 0 then Some (mutated, [], true)      (* error return: list kept, nothing released *)
+  if pos_total nl =? 0 then Some (mutated, [], true, m)   (* error return: list and short-cuts kept, nothing released *)
   else match release_subs gone with
-       | Some rel => Some (nl, rel, false)
+       | Some rel => Some (nl, rel, false, new_meta nl m)
        | None => None
        end.
 
@@ -166,8 +180,9 @@ Fixpoint phase1 (gs : list (Z * gconf)) (old : list clu) : option (list clu * li
   | [] => Some ([], [], false)
   | (n, g) :: r =>
     let subs := match cfind n old with Some c => csubs c | None => [] end in
-    match reload_gslb g subs, phase1 r old with
-    | Some (subs', rel, e), Some (cs, rel', e') => Some (ins_clu (mkClu n subs') cs, rel ++ rel', e || e')
+    let m := match cfind n old with Some c => cmeta c | None => meta0 end in
+    match reload_gslb g subs m, phase1 r old with
+    | Some (subs', rel, e, m'), Some (cs, rel', e') => Some (ins_clu (mkClu n subs' m') cs, rel ++ rel', e || e')
     | _, _ => None
     end
   end.
@@ -192,7 +207,7 @@ Fixpoint phase3 (bc : list (Z * list (Z * bconf))) (l : list clu) : option (list
               end
     | Some cb =>
       match backend_reload cb (csubs c), phase3 bc r with
-      | Some (subs, rel), Some (r', rel', e) => Some (mkClu (cname c) subs :: r', rel ++ rel', e)
+      | Some (subs, rel), Some (r', rel', e) => Some (mkClu (cname c) subs (cmeta c) :: r', rel ++ rel', e)
       | _, _ => None
       end
     end
@@ -227,7 +242,36 @@ Definition poke (c s a kind v : Z) (t : tbl) : tbl :=
                       then mkClu (cname cl) (map (fun sb => if sname sb =? s
                              then mkSub (sname sb) (sweight sb)
                                         (map (fun b => if kaddr b =? a then poke_bk kind v b else b) (sbks sb))
-                             else sb) (csubs cl))
+                             else sb) (csubs cl)) (cmeta cl)
                       else cl) (clus t)) (orphans t).
 
 Definition all_bks (t : tbl) : list bk := flat_map (fun c => flat_map sbks (csubs c)) (clus t).
+
+(* ---- selection: BalanceGslb.subClusterBalance for hash residue r, then SubCluster.balance (WrrSmooth) ----
+   (retryTime 0, cross retry disabled; every residue and enough picks are tried, so the observable is the SET of
+   selected (sub-cluster, backend) pairs and of error codes: 1 ErrBkNoSubCluster, 2 ErrBkNoBackend, 9 panic) *)
+Fixpoint walk (l : list sub) (w : Z) (cur : option sub) : option sub :=
+  match l with
+  | [] => cur
+  | s :: r => if sweight s <=? 0 then walk r w (Some s)
+              else let w' := w - sweight s in if w' <? 0 then Some s else walk r w' (Some s)
+  end.
+Definition choose_sub (c : clu) (r : Z) : option sub :=
+  let '(total, single, av) := cmeta c in
+  if single then (if av <? 0 then None else nth_error (csubs c) (Z.to_nat av)) else walk (csubs c) r None.
+Definition bk_eligible (b : bk) : bool := kav b && (kw b >? 0).
+Definition sel_code (s : sub) (b : bk) : Z := sname s * 100 + kaddr b.
+(* (picks, errors) for one residue *)
+Definition select_r (c : clu) (r : Z) : list Z * list Z :=
+  match choose_sub c r with
+  | None => ([], [9])
+  | Some s => match filter bk_eligible (sbks s) with
+              | [] => ([], [2])
+              | el => (map (sel_code s) el, [])
+              end
+  end.
+Definition selected (c : clu) : list Z * list Z :=
+  let total := fst (fst (cmeta c)) in
+  if total <=? 0 then ([], [1])
+  else let rs := map (fun k => select_r c (Z.of_nat k)) (seq 0 (Z.to_nat total)) in
+       (sort_dedup (flat_map fst rs), sort_dedup (flat_map snd rs)).
